@@ -7,7 +7,8 @@ import MalVerif.Py.TieModelStep
 `assetBody`, `assocBody`, `attackerBody` (with `defenseBody`, `fieldBody`, `epBody`) are the bodies of the loops of
 the GENERATED `updater_process_model`, written down once more by hand; `process_model_eq` is checked by `rfl`, so a
 change of the generated function (i.e. of the Python source) breaks it.  `loop_sim` is the generic simulation
-argument for a `for` loop whose body never leaves the loop early.
+argument for a `for` loop whose body never leaves the loop early; when the body raises, the step of the hand model
+rejects with an error that agrees with the exception up to the listed disagreements (`oldErrAbs`, `OldErrAgree`).
 -/
 namespace MalVerif.PyLeg.Tie
 open MalVerif MalVerif.PyM MalVerif.PyM.Gen MalVerif.PyM.Tie MalVerif.PyLeg MalVerif.PyLeg.Gen MalVerif.Legacy
@@ -100,14 +101,58 @@ theorem process_model_eq (files : Files) (env : ModelEnv) (md : PyJ) (fac : Fact
   simp only []
 
 
+/-! ### the exception class -/
+
+/-- the error class of the hand model that an exception of the translated loader stands for (as `errAbsL` of the
+securiCAD tie): a Python exception of `model.py` is its `errAbs` (whose catch-all sends `AttributeError`, `KeyError`, …
+to `validation`), the pjs `ValidationError` is `validation`; `none`: `unmodelled` (the value is outside the modelled
+subset, Python would not raise) and `typeError` (cannot occur on an encoded document). -/
+def oldErrAbs : LErr → Option MS.Err
+  | .py e => some (errAbs e)
+  | .validation => some .validation
+  | .typeError => none
+  | .unmodelled => none
+
+/-- Python exception `e` of the translated 0.0.39 loader vs. error `er` of `Legacy.loadOld` (both stop at the SAME entry
+of the same loop): the same class (`oldErrAbs`), or one of the eight listed disagreements.  Each of them is realised
+(witnesses at the end of `TieLegacyOld.lean`).
+
+* `unmodelled` — Python does not raise at all there, the hand model rejects:
+  - with `validation`: an asset entry with a `defenses` key that is not a defense of the class (pjs accepts it);
+  - with `lookupError`: an attacker with an entry point for an asset id that is not in the file (Python stores `(None, steps)`);
+  - with `valueError`: either of the two, in an entry whose own key is not an integer (`loadOldAsset` / `loadAttacker`
+    convert the key FIRST, the Python converts it LAST).
+* `AttributeError` (`getattr(ns, metaconcept)` for an unknown class):
+  - the hand model says `lookupError` (asset and association loop — ONE fault, two names for it);
+  - `valueError`: an asset entry of an unknown class whose key is not an integer (hand model: `int(key)` first).
+  (In the association loop, unknown class AND a member id that does not resolve: the hand model resolves the ids first
+  and says `validation`, which is what `errAbs` makes of `AttributeError` — covered by the first disjunct.)
+* `ValidationError` vs `valueError`: an asset entry with a defense value out of range whose key is not an integer.
+* `ValueError` (`int(x)` of a string that is not a number — ONE fault):
+  - `validation`: `x` is a member id of an association (`Ser.resolveIds` does not tell a non-number from an unknown id);
+  - `lookupError`: `x` is the asset id of an entry point (`Ser.loadAttacker` likewise). -/
+def OldErrAgree (e : LErr) (er : MS.Err) : Prop :=
+  oldErrAbs e = some er ∨
+  (e = .unmodelled ∧ (er = .validation ∨ er = .lookupError ∨ er = .valueError)) ∨
+  (e = .py .attributeError ∧ (er = .lookupError ∨ er = .valueError)) ∨
+  (e = .validation ∧ er = .valueError) ∨
+  (e = .py .valueError ∧ (er = .validation ∨ er = .lookupError))
+
+instance (e : LErr) (er : MS.Err) : Decidable (OldErrAgree e er) := by
+  unfold OldErrAgree; exact inferInstance
+
+theorem OldErrAgree.py (e : PyErr) : OldErrAgree (.py e) (errAbs e) := Or.inl rfl
+
 /-! ### a `for` loop whose body never leaves early simulates a `foldlM` of the hand model -/
 
-/-- what a loop body does on the encoding of `a`, against one step of the hand model -/
+/-- what a loop body does on the encoding of `a`, against one step of the hand model; when the body raises, the step
+rejects with an error that agrees with the exception (`OldErrAgree`) -/
 structure StepSim {α β : Type} (P : Nat → H → Prop) (Q : α → Prop) (body : β → H → Except LErr (ForInStep H))
     (enc : α → β) (step : MS.St → α → Except MS.Err MS.St) : Prop where
   ok : ∀ n s a r, P (n + 1) s → Q a → body (enc a) s = .ok r →
     ∃ s1, r = .yield s1 ∧ step (abs s) a = .ok (abs s1) ∧ P n s1
-  err : ∀ n s a e, P (n + 1) s → Q a → body (enc a) s = .error e → ∃ er, step (abs s) a = .error er
+  err : ∀ n s a e, P (n + 1) s → Q a → body (enc a) s = .error e →
+    ∃ er, step (abs s) a = .error er ∧ OldErrAgree e er
 
 theorem forIn_cons_ok {β : Type} (body : β → H → Except LErr (ForInStep H)) (x : β) (xs : List β) (s s1 : H)
     (h : body x s = .ok (.yield s1)) : forIn (x :: xs) s body = forIn xs s1 body := by
@@ -125,7 +170,7 @@ theorem loop_sim {α β : Type} {P : Nat → H → Prop} {Q : α → Prop} {body
     {enc : α → β} {step : MS.St → α → Except MS.Err MS.St} (hsim : StepSim P Q body enc step) :
     ∀ (l : List α), (∀ a ∈ l, Q a) → ∀ (s : H), P l.length s →
       (∀ s', forIn (l.map enc) s body = .ok s' → l.foldlM step (abs s) = .ok (abs s') ∧ P 0 s') ∧
-      (∀ e, forIn (l.map enc) s body = .error e → ∃ er, l.foldlM step (abs s) = .error er) := by
+      (∀ e, forIn (l.map enc) s body = .error e → ∃ er, l.foldlM step (abs s) = .error er ∧ OldErrAgree e er) := by
   intro l
   induction l with
   | nil =>
@@ -144,11 +189,14 @@ theorem loop_sim {α β : Type} {P : Nat → H → Prop} {Q : α → Prop} {body
     rw [List.map_cons, List.foldlM_cons]
     cases hb : body (enc a) s with
     | error e =>
-      obtain ⟨er, her⟩ := hsim.err as.length s a e hs hqa hb
+      obtain ⟨er, her, hag⟩ := hsim.err as.length s a e hs hqa hb
       rw [forIn_cons_err _ _ _ _ _ hb, her]
       refine ⟨?_, ?_⟩
       · intro s' h; cases h
-      · intro e' _; exact ⟨er, rfl⟩
+      · intro e' h
+        injection h with h
+        subst h
+        exact ⟨er, rfl, hag⟩
     | ok r =>
       obtain ⟨s1, hr, hst, hp⟩ := hsim.ok as.length s a r hs hqa hb
       subst hr
